@@ -64,7 +64,7 @@ class Justifications:
                     if m is not None and m.is_property and self._returns_ast_name(m):
                         return self._assume(A1)
         if ob.kind == 'precondition' and 'PortSelect._check_port_name' in ob.text and 'is empty/false' in ob.text:
-            if fn.qualname == 'PortsSemanticsCfg.match' and self._port_loop_over_expected(fn, ob.node):
+            if fn.qualname == 'PortsSemanticsCfg.match' and self._port_loop_over_expected(fn, self._call_with_port(ob.node)):
                 return self._assume(A1) + ' (loop variable over the expected port names)'
         # --- FindResult element types --------------------------------------------------------------------------
         if ob.kind == 'raise' and fn.qualname == 'FindResult.__post_init__' and ob.exc == 'TypeError':
@@ -99,16 +99,28 @@ class Justifications:
                     return True
         return False
 
+    @staticmethod
+    def _call_with_port(node: ast.AST) -> ast.AST:
+        return node
+
     def _port_loop_over_expected(self, fn: FuncInfo, call: ast.AST) -> bool:
         if not isinstance(call, ast.Call) or not call.args or not isinstance(call.args[0], ast.Name):
             return False
-        # the enclosing loop (any nesting level) that binds the argument
-        loop = self.ctx.flow.enclosing(call, (ast.For,))
-        while loop is not None and not (isinstance(loop.target, ast.Name) and loop.target.id == call.args[0].id):
-            loop = self.ctx.flow.enclosing(loop, (ast.For,))
-        if loop is None:
+        # the enclosing loop / comprehension (any nesting level) that binds the argument
+        name = call.args[0].id
+        p = self.ctx.prog.parent(call)
+        it = None
+        while p is not None and p is not fn.node and it is None:
+            if isinstance(p, ast.For) and isinstance(p.target, ast.Name) and p.target.id == name:
+                it = p.iter
+            elif isinstance(p, (ast.ListComp, ast.SetComp, ast.GeneratorExp, ast.DictComp)):
+                for g in p.generators:
+                    if isinstance(g.target, ast.Name) and g.target.id == name:
+                        it = g.iter
+            p = self.ctx.prog.parent(p)
+        if it is None:
             return False
-        return isinstance(loop.iter, ast.Name) and loop.iter.id in [a.arg for a in fn.params()]
+        return isinstance(it, ast.Name) and it.id in [a.arg for a in fn.params()]
 
     def _findresult_types(self) -> Optional[str]:
         try:
@@ -151,26 +163,55 @@ class Justifications:
                 for k in n.keywords:
                     if k.arg and isinstance(k.value, ast.Name):
                         role_of[k.value.id] = k.arg
-        for n in iter_own_nodes(cde.node):
-            if isinstance(n, ast.Call) and isinstance(n.func, ast.Attribute) and n.func.attr in ('append', 'extend', 'insert') \
-                    and isinstance(n.func.value, ast.Name) and role_of.get(n.func.value.id) in seen:
-                which = role_of[n.func.value.id]
-                pol = None
-                for cond, p in self.abs.facts_at(n):
-                    if isinstance(cond, ast.Compare) and len(cond.ops) == 1 and isinstance(cond.ops[0], ast.Eq) \
-                            and isinstance(cond.left, ast.Attribute) and cond.left.attr == 'direction':
-                        sym = prog.resolve_expr_symbol(cde.module, cond.comparators[0])
-                        if isinstance(sym, tuple) and sym[0] == 'enum_member' and sym[1] is pd:
-                            is_prov = (sym[2] == 'PROVIDES') == p
-                            pol = 'provides_ports' if is_prov else 'requires_ports'
-                            subj = cond.left.value
-                            # the appended DznPortItf is built from the same port object
-                            arg = n.args[0] if n.args else None
-                            if not (isinstance(arg, ast.Call) and arg.args and same_expr(arg.args[0], subj)):
-                                return None
-                if pol != which:
+        # Per direction of the port (a two-member enum): which list does an append reach?  Evaluated over the dominating
+        # conditions and a conditional receiver (`(a if is_provides else b).append(x)`), whatever the branching looks like.
+        from .shared import eval_guard, reach_under
+
+        def local_def(nm: ast.Name):
+            defs = [a for a in iter_own_nodes(cde.node) if isinstance(a, ast.Assign) and len(a.targets) == 1
+                    and isinstance(a.targets[0], ast.Name) and a.targets[0].id == nm.id]
+            return defs[0].value if len(defs) == 1 else None
+
+        subjects = set()
+        for direction, want_role in (('PROVIDES', 'provides_ports'), ('REQUIRES', 'requires_ports')):
+            def leaf(e, direction=direction):
+                if isinstance(e, ast.Compare) and len(e.ops) == 1 and isinstance(e.ops[0], (ast.Eq, ast.NotEq, ast.Is, ast.IsNot)) \
+                        and isinstance(e.left, ast.Attribute) and e.left.attr == 'direction':
+                    sym = prog.resolve_expr_symbol(cde.module, e.comparators[0]) \
+                        if isinstance(e.comparators[0], (ast.Name, ast.Attribute)) else None
+                    if isinstance(sym, tuple) and sym[0] == 'enum_member' and sym[1] is pd:
+                        subjects.add(ast.unparse(e.left.value))
+                        r = sym[2] == direction
+                        return r if isinstance(e.ops[0], (ast.Eq, ast.Is)) else not r
+                return None
+            for n in iter_own_nodes(cde.node):
+                if not (isinstance(n, ast.Call) and isinstance(n.func, ast.Attribute) and n.func.attr in ('append', 'extend', 'insert')):
+                    continue
+                recv = n.func.value
+                cands = [recv.body, recv.orelse] if isinstance(recv, ast.IfExp) else [recv]
+                if not all(isinstance(c_, ast.Name) and role_of.get(c_.id) in seen for c_ in cands):
+                    if any(isinstance(c_, ast.Name) and role_of.get(c_.id) in seen for c_ in cands):
+                        return None
+                    continue
+                r = reach_under(self.ctx, n, leaf, local_def, relevant=lambda e: '.direction' in ast.unparse(e))
+                if r is False:
+                    continue
+                # r is None: the append may or may not happen for such a port (e.g. the injected filter): if it does, the
+                # receiver must still be the right list
+                if isinstance(recv, ast.IfExp):
+                    t = eval_guard(recv.test, leaf, local_def)
+                    if t is None:
+                        return None
+                    recv = recv.body if t else recv.orelse
+                if role_of[recv.id] != want_role:
                     return None
-                seen[which] += 1
+                # the appended DznPortItf is built from the port whose direction was tested
+                arg = n.args[0] if n.args else None
+                if isinstance(arg, ast.Name):
+                    arg = local_def(arg)
+                if not (isinstance(arg, ast.Call) and arg.args and len(subjects) == 1 and ast.unparse(arg.args[0]) in subjects):
+                    return None
+                seen[want_role] += 1
         if not all(seen.values()):
             return None
         build = prog.func('adv_shell', 'Builder.build')
@@ -359,6 +400,15 @@ def check(ctx):
                 continue
             if o.ident in escaping_ids:
                 chain = next(ch for (e, oid), (ob, ch) in esc.items() if oid == o.ident)
+                if o.guard_opaque:
+                    # an explicit raise of a foreign error type under a condition that is outside the atom language (a
+                    # relation between several values, e.g. `len(self.a) != len(self.b)`): the analysis can neither refute
+                    # nor witness it.  Undecided - not a verdict.
+                    conds = ' and '.join(('' if p_ else 'not ') + ast.unparse(c)[:60] for c, p_ in o.facts[-2:])
+                    run.error('C13.escape', fn.module.name, fn.qualname, o.node,
+                              f'undecided: `{o.text}` is guarded by `{conds}`, which this analysis cannot evaluate: whether '
+                              f'{o.exc} can escape Builder.build is not decided', node=o.node)
+                    continue
                 run.violation('C13.escape', fn.module.name, fn.qualname, o.node,
                               f'{o.exc} may escape Builder.build - not one of the library\'s error types: {o.text} | '
                               f'path: ' + ' => '.join(chain[:6]), node=o.node, kind=o.kind)
